@@ -364,6 +364,17 @@ Fixpoint params_eqb (a b : list (string * string)) : bool :=
 Definition site_eqb (a b : site) : bool :=
   String.eqb (site_name a) (site_name b) && params_eqb (site_params a) (site_params b).
 
+(* The only fields of wire types that may be absent from the byte stream: automata, pools, function pointers and
+   per-scan user data, all recomputed by the deserialiser from what *is* stored (reviewed by hand; a field
+   appearing here without review is a change of the format). *)
+Definition expected_rebuilt : list (string * list string) :=
+  [("DfaValidator", ["dfa"; "pool"]); ("Inner", ["ac_scan"]);
+   ("ModuleExpressionKind::StaticFunction", ["fun"]); ("RawMatcher", ["regex"]); ("Regex", ["meta"]);
+   ("Scanner", ["module_user_data"])]%string.
+
+Definition fields_table_eqb (a b : list (string * list string)) : bool :=
+  list_eqb (fun x y => String.eqb (fst x) (fst y) && list_eqb String.eqb (snd x) (snd y)) a b.
+
 (* ---------------------------------------------------------------- access helpers (case evaluation) *)
 Definition field (f : string) (v : value) : option value :=
   match v with VRec m => lookup f m | _ => None end.
